@@ -3,7 +3,7 @@ import os, re, subprocess, time, json
 import vlib
 
 
-def run_cfg(module, cfgname, timeout, workers=8):
+def run_cfg(module, cfgname, timeout, workers=16):
     cfgpath = os.path.join(vlib.SPEC, cfgname + ".cfg")
     if not os.path.exists(cfgpath):
         return None
@@ -55,3 +55,84 @@ def run(prop, cfgs, tier):
             if r.get("violation"):
                 merged["violation"] = r["violation"]; merged["replay"] = r.get("replay")
     return merged
+
+
+# ------------------------------------------------------------------------------------------------
+# spec -> code: behaviours of the design model exported as harness scripts
+
+def _consts(cfgname):
+    src = open(os.path.join(vlib.SPEC, cfgname + ".cfg")).read()
+    def num(name, default):
+        m = re.search(r"^\s*%s\s*=\s*(\d+)" % name, src, re.M)
+        return int(m.group(1)) if m else default
+    return {"R": num("Rmax", 2), "Msz": num("Msz", 0)}
+
+
+def _spec_of(o, k):
+    """harness operation spec for design-model kind k of slot o (lengths chosen so that with a real
+    Maximum Packet Size of 30 'big1' (30 bytes) is the largest accepted and 'huge1' (31 bytes) the smallest refused)"""
+    t = "t/%d" % o
+    if k in ("pub0", "pub1", "pub2"):
+        return {"kind": "pub", "qos": int(k[3]), "topic": t, "payload": {"tag": "p%d" % o, "n": 1}}
+    if k == "big1":
+        return {"kind": "pub", "qos": 1, "topic": t, "payload": {"tag": "p%d" % o, "n": 20}}
+    if k == "huge1":
+        return {"kind": "pub", "qos": 1, "topic": t, "payload": {"tag": "p%d" % o, "n": 21}}
+    if k == "sub":
+        return {"kind": "sub", "filters": [{"f": "f/%d" % o, "qos": 2}]}
+    if k == "unsub":
+        return {"kind": "unsub", "filters": [{"f": "f/%d" % o}]}
+    if k == "disc":
+        return {"kind": "disc"}
+    return {"kind": "ping"}
+
+
+def export_scripts(cfgname, num, depth, seed, out_path, fam):
+    """Runs TLC in simulation mode on <cfgname> and writes one harness script per behaviour."""
+    base = open(os.path.join(vlib.SPEC, cfgname + ".cfg")).read()
+    sim = re.sub(r"^VIEW.*\n", "", base, flags=re.M)
+    sim = sim.replace("SPECIFICATION Spec", "SPECIFICATION SimSpec")
+    sim = re.sub(r"INVARIANTS.*", "INVARIANTS Export", sim)
+    tmp = "SIM_%s_%d" % (cfgname, os.getpid())
+    open(os.path.join(vlib.SPEC, tmp + ".cfg"), "w").write(sim)
+    md = os.path.join(vlib.OUT, "md", tmp)
+    cmd = ["timeout", "900", "tlc", "-workers", "1", "-simulate", "num=%d" % num, "-depth", str(depth), "-seed", str(seed),
+           "-metadir", md, "-noGenerateSpecTE", "-config", tmp + ".cfg", "Poster.tla"]
+    r = subprocess.run(cmd, cwd=vlib.SPEC, stdout=subprocess.PIPE, stderr=subprocess.STDOUT, text=True,
+                       env=dict(os.environ, JAVA_TOOL_OPTIONS="-Xss64m -Xmx4g"))
+    os.remove(os.path.join(vlib.SPEC, tmp + ".cfg"))
+    import shutil
+    shutil.rmtree(md, ignore_errors=True)
+    c = _consts(cfgname)
+    n = 0
+    seen = set()
+    with open(out_path, "w") as f:
+        for line in r.stdout.splitlines():
+            line = line.strip()
+            if not line.startswith('"SCHED '):
+                continue
+            body = json.loads(line)[6:]
+            if body in seen:
+                continue
+            seen.add(body)
+            steps = [{"a": "reset", "run": n, "fam": fam, "R": c["R"], "M": 30 if c["Msz"] else None, "disc": "wake"}]
+            last_ctx = False
+            for st in json.loads(body):
+                if st["a"] == "call":
+                    steps.append({"a": "call", "op": st["op"], "h": 0, "spec": _spec_of(st["op"], st["k"])})
+                    last_ctx = False
+                elif st["a"] == "poll" and st["t"] == "ctx":
+                    if not last_ctx:
+                        steps.append(st)
+                    last_ctx = True
+                elif st["a"] == "drop" and st["t"] == "h":
+                    steps.append({"a": "drop", "t": "h", "k": 0})
+                    last_ctx = False
+                else:
+                    steps.append(st)
+                    last_ctx = False
+            f.write(json.dumps({"run": n, "seed": seed, "steps": steps}) + "\n")
+            n += 1
+    if n == 0:
+        raise vlib.ToolError("no behaviours exported from %s: %s" % (cfgname, r.stdout[-1500:]))
+    return n
